@@ -437,6 +437,7 @@ type Layout struct {
 	StmtDecor    float64
 	Payload      func(r *rand.Rand, serial int) string
 	LeadingBlank bool // allow blank lines / comments before the first token
+	LongDecor    bool // one statement gap in ten carries a long run (12..45) of comments and blank runs: headers, boxes
 	NoTrailingNL bool
 	SemiNL       float64 // probability that a written statement-terminating ';' stands on the next line (`a⏎;b`), possibly after a comment
 }
@@ -686,6 +687,9 @@ func layout(in []Tok, eof Tok, r *rand.Rand, lay Layout) *Rendered {
 				n := 0
 				if chance(lay.StmtDecor) {
 					n = 1 + r.IntN(3)
+					if lay.LongDecor && r.IntN(10) == 0 {
+						n = 12 + r.IntN(34)
+					}
 				}
 				for k := 0; k < n; k++ {
 					if r.IntN(3) == 0 {
